@@ -69,12 +69,46 @@ def run_one(c):
     return out
 
 
+def summary(a):
+    conv = a.get_conventional_system()
+    sets = a.get_wyckoff_sets_conventional(return_parameters=False)
+    return {"number": int(a.get_space_group_number()), "material_id": a.get_material_id(),
+            "conv_numbers": [int(x) for x in conv.get_atomic_numbers()],
+            "conv_cell": np.array(conv.get_cell()).tolist(),
+            "conv_scaled": conv.get_scaled_positions(wrap=False).tolist(),
+            "multiset": sorted([s.wyckoff_letter, s.element, int(s.multiplicity)] for s in sets)}
+
+
+reuse_rows = []
+if req.get("reuse"):
+    # one analyzer instance fed successive crystals through set_system: every answer must equal the
+    # answer of a freshly constructed analyzer
+    shared = None
+    for c in req["reuse"]:
+        cr = c["crystal"]
+        at = Atoms(numbers=cr["numbers"], cell=cr["cell"], scaled_positions=cr["scaled_positions"], pbc=True)
+        try:
+            with time_limit(120):
+                if shared is None:
+                    shared = SymmetryAnalyzer(at, symmetry_tol=c.get("tol", 1e-3))
+                else:
+                    shared.set_system(at)
+                s1 = summary(shared)
+                s2 = summary(SymmetryAnalyzer(at, symmetry_tol=c.get("tol", 1e-3)))
+                same = (s1["number"] == s2["number"] and s1["material_id"] == s2["material_id"] and s1["conv_numbers"] == s2["conv_numbers"]
+                        and s1["multiset"] == s2["multiset"] and np.allclose(s1["conv_cell"], s2["conv_cell"], atol=1e-8)
+                        and np.allclose(np.array(s1["conv_scaled"]) % 1.0, np.array(s2["conv_scaled"]) % 1.0, atol=1e-8))
+                reuse_rows.append({"id": c["id"], "same": bool(same), "reused": {k: s1[k] for k in ("number", "material_id", "multiset")},
+                                   "fresh": {k: s2[k] for k in ("number", "material_id", "multiset")}})
+        except Exception as e:
+            reuse_rows.append({"id": c["id"], "error": type(e).__name__ + ": " + str(e)[:200]})
+
 rows = []
-for c in req["cases"]:
+for c in req.get("cases", []):
     try:
         with time_limit(c.get("time_limit", 120)):
             rows.append(run_one(c))
     except Exception as e:
         import traceback
         rows.append({"id": c["id"], "error": type(e).__name__ + ": " + str(e)[:300], "tb": traceback.format_exc()[-600:]})
-print(json.dumps({"rows": rows}))
+print(json.dumps({"rows": rows, "reuse": reuse_rows}))
